@@ -71,6 +71,10 @@ impl TraceOut {
         self.w.flush().unwrap();
         self.lines
     }
+    pub fn flush(&mut self) -> u64 {
+        self.w.flush().unwrap();
+        self.lines
+    }
 }
 
 pub fn hex(b: &[u8]) -> String {
